@@ -206,6 +206,13 @@ def run(chk):
           chk.violation('oracle', 'a submodule applied on its own sub-tree produces other variable updates than inside a parent', {'case': c, 'standalone': a['vars'], 'inside': inner})
       env_c = LP.cenv(prog, {'deny': 'intermediates'}, c['streams'])
       rows.append('(agree %s %s %s %s %s)' % (env_c, cN(st['cls']), LP.cvtree(st['vars_in']), LP.cvec(st['x']), c01.cexp(st['result'], True)))
+    if 'clash_on_apply' in r:
+      # the top class with one declaration repeated (or a child named like a variable), applied on init's variables: NameInUse although the variable exists already
+      ca = r['clash_on_apply']
+      body0, ret0 = prog['classes'][str(prog['top'])]
+      prog2 = {'classes': {**prog['classes'], '998': (body0[:ca['after'] + 1] + [ca['extra']] + body0[ca['after'] + 1:], ret0)}, 'top': 998, 'n': prog['n']}
+      stats['clash_on_apply'] = stats.get('clash_on_apply', 0) + 1
+      rows.append('(agree %s %s %s %s %s)' % (LP.cenv(prog2, {'deny': 'intermediates'}, c['streams']), cN(998), cv, x, c01.cexp(ca['result'], True)))
     env_f = LP.cenv(prog, False, c['streams'])
     rows.append('(agree %s %s %s %s %s)' % (env_f, top, cv, x, c01.cexp(ai, False)))
     rows.append('(agree %s %s %s %s %s)' % (env_init, top, cv, x, c01.cexp(al, True)))
